@@ -44,10 +44,13 @@ def _case(draw):
     for i in range(n):
         scan = draw(progs.scans(table))
         prog = draw(progs.programs(table, kinds=("b", "b", "assign", "when", "se", "print", "print"), max_comps=4, depth=2, or_mode=False))
-        ending = draw(st.sampled_from(["exhaust", "exhaust", "stop", "fail"]))
+        ending = draw(st.sampled_from(["exhaust", "exhaust", "exhaust", "stop", "stop", "fail", "fail", "stop_all"]))
         nrec = len(table["records"])
         if ending == "stop":
             prog["comps"].append(["->", ["==", ["f", "line_number", [], []], ["t", draw(st.integers(1, nrec))]], ["f", "stop", [], []]])
+        elif ending == "stop_all":
+            # the cross-path stop: every member ends there (the standalone runs are then no reference: see run_case)
+            prog["comps"].append(["->", ["==", ["f", "line_number", [], []], ["t", draw(st.integers(1, nrec))]], ["f", "stop_all", [], []]])
         elif ending == "fail":
             prog["comps"].append(["->", ["==", ["f", "line_number", [], []], ["t", draw(st.integers(1, nrec))]], ["f", "fail", [], []]])
         named = draw(st.sampled_from(["no", "no", "also", "only"]))
@@ -77,7 +80,25 @@ def _case(draw):
         r.append("e" if first else ("x" if draw(st.integers(0, 3)) == 1 else "5"))
         r.append("note" if first else draw(st.sampled_from(NOTES)))
         first = False
-    return {"table": table, "members": members, "method": draw(st.sampled_from(list(real.METHODS)))}
+    case = {"table": table, "members": members, "method": draw(st.sampled_from(list(real.METHODS)))}
+    if draw(st.integers(0, 5)) == 2:
+        # an exception that escapes the match part (collect("note") on a row that lost its last cell) under
+        # policies without 'raise': CsvPaths handles it and the run still has to be accounted for truthfully
+        rows = [i for i, r in enumerate(table["records"]) if r][1:]
+        j = draw(st.integers(0, n - 1))
+        # (the member returns every data line, so limit_collection() meets the short row)
+        members[j]["prog"] = {"comps": [["f", "print", [], [["pt", [["text", "row "], ["ref", "csvpath", "line_number"]]]]],
+                                        ["f", "collect", [], [["t", "note"]]]], "mode": "AND", "ignore_vars": []}
+        members[j]["scan"] = "1*"
+        members[j]["ending"] = "exhaust"
+        members[j]["norun"] = False
+        members[j]["escapes"] = True
+        case["method"] = draw(st.sampled_from(["collect_paths", "collect_paths", "collect_paths", "next_paths", "fast_forward_paths", "collect_by_line", "next_by_line"]))
+        k = draw(st.sampled_from(rows))
+        table["records"][k] = table["records"][k][:-1]
+        case["policy"] = draw(st.sampled_from([["collect", "print"], ["collect", "fail", "print"], ["collect", "fail"]]))
+        case["policies"] = ["collect", "print"]
+    return case
 
 
 def strategy(tier):
@@ -126,12 +147,16 @@ def run_case(case, sb):
     records = case["table"]["records"]
     members = case["members"]
     method = case["method"]
+    sb.write_config(case.get("policy") or ["collect", "print"], case.get("policies") or ["raise", "collect"])
     rel = sb.write_csv("f.csv", records)
     labels = ["method:" + method]
+    escapes = any(m.get("escapes") for m in members)
+    if escapes:
+        labels.append("exception-outside-match-part")
     ref = []
     for m in members:
         r = real.run_path(member_text(m, rel))
-        if r["raised"]:
+        if r["raised"] and not escapes:
             return core.outcome(undefined=True, labels=["standalone-raised"])
         r["completed"] = bool(r["_path"].completed)
         ref.append(r)
@@ -160,13 +185,25 @@ def run_case(case, sb):
     if rman.get("status") != "complete":
         problems.append({"run_manifest_status": rman.get("status")})
     expected_dirs = sorted((m["id"] if m["id"] is not None else str(i)) for i, m in enumerate(members))
+    if any(m.get("ending") == "stop_all" for m in members):
+        # members that stop_all() kept from starting have no result and no directory (the statement does not
+        # cover them): one directory per member that has a result
+        expected_dirs = sorted((m["id"] if m["id"] is not None else str(i)) for i, m in enumerate(members) if i < len(out["members"]))
     got_dirs = sorted(d for d in os.listdir(rdir) if os.path.isdir(os.path.join(rdir, d)))
     if got_dirs != expected_dirs:
         problems.append({"member_directories_expected": expected_dirs, "observed": got_dirs})
     collecting = method in ("collect_paths", "collect_by_line")
     nontrivial = False
     valids, completes, nerrors = [], [], 0
+    signals = any(m.get("ending") == "stop_all" for m in members) or escapes
+    if any(m.get("ending") == "stop_all" for m in members):
+        labels.append("stop_all")
     for i, (m, r, o) in enumerate(zip(members, ref, out["members"])):
+        if signals and i < len(out["_results"]):
+            # with a cross-path signal a member's standalone run says nothing about its run in the group:
+            # the in-memory result is the reference for what is on disk
+            live = out["_results"][i].csvpath
+            r = dict(o, _path=live, completed=bool(live.completed))
         name = m["id"] if m["id"] is not None else str(i)
         mdir = os.path.join(rdir, name)
         files = {}
@@ -262,7 +299,7 @@ def run_case(case, sb):
             problems.append({"member": name, "manifest.file_fingerprints": fps, "recomputed": present})
         if man.get("instance_identity") != name:
             problems.append({"member": name, "manifest.instance_identity": man.get("instance_identity")})
-    if len(valids) == len(members):
+    if len(valids) == len(out["members"]):
         if rman.get("all_valid") != all(valids):
             problems.append({"run_manifest.all_valid": rman.get("all_valid"), "members_valid": valids})
         if rman.get("all_completed") != all(completes):
